@@ -44,6 +44,12 @@ one environment everything is settled after every reloader step (`C05_static_his
 `C05_history_settled_partial`: `C05_static_history_extends`). The pass is the same `run_update`: same named
 hypotheses, on the steps of the pass the entry point runs; both stay necessary in static mode
 (`C05_static_statement_false_rewire`, `C05_static_statement_false_miss`).
+**Histories with `clear` and `load_owned`** (`Lemmas/HistMore.lean`): `C05_history_with_clear_partial` extends
+`C05_static_history_partial` with `clear` steps (no hypothesis: the registrations still in the channel become
+stale, and the last registration of a key wins — `C05_last_registration_wins`),
+`C05_history_with_load_owned_partial` extends it further with `load_owned` from the API (a registration for a
+key that is not cached; the assets cached on the way are registered as by a load). `load_owned` nested in a
+loader is outside `Settled` by definition (`C05_nested_load_owned_never_settled`).
 -/
 namespace AmVerif.Props.C05
 open AmVerif.Gen AmVerif.Model AmVerif.Lemmas.TopoGraph AmVerif.Lemmas.Topo
@@ -687,10 +693,11 @@ cached is settled, the index is exact and the channel is drained. Loads need not
 `hot_reload`s. `LoadHist` also admits `get_or_insert` (a static entry; same two no-fill hypotheses), the
 operations that leave the cache as it is (`get_cached`, `contains`), and `remove` / `take` of a key on which
 nothing registered and cached (and no registration still in the channel) depends (`NoDependentOn`;
-necessary: `C05_remove_breaks_settled`). Not covered: `clear` (its `Clear` message and the registrations
-still in the channel for entries that are gone need a weaker notion of good registration),
-`load_owned` (registers a key it does not cache; its loader is re-run, not read back),
-`notify` / `enhance` / edits (that is `C05_hot_reload_converges_partial`). -/
+necessary: `C05_remove_breaks_settled`). Not covered HERE: `clear` (its `Clear` message and the registrations
+still in the channel for entries that are gone need a weaker notion of good registration:
+`C05_history_with_clear_partial`), `load_owned` (registers a key it does not cache:
+`C05_history_with_load_owned_partial`), `notify` / `enhance` (`C05_static_history_partial`), edits
+(`C05_hot_reload_converges_partial`). -/
 theorem C05_history_settled_partial (env : Env) (hS : env.Steady) (fuel : Nat) (h : List (Env × HOp))
     (hh : LoadHist env fuel h ({}, {})) :
     ∀ h1 h2, h = h1 ++ (env, .hotReload) :: h2 →
@@ -1565,8 +1572,9 @@ the keys with a registration in the channel, then after the reloader has taken t
 registrations and `Clear`s included — everything registered and cached is settled. -/
 theorem C05_last_registration_wins (env : Env) (hS : env.Steady) (fuel : Nat) (s : St) (r : RSt)
     (hlast : LastGood env fuel s s.out) (hbut : SettledBut env fuel s r.graph s.out) :
-    Settled env fuel (processMsgs s r).1 (processMsgs s r).2.graph :=
-  PendingC.drain hS ⟨hlast, hbut⟩
+    Settled env fuel (processMsgs s r).1 (processMsgs s r).2.graph := by
+  rw [processMsgs_eq]
+  exact settled_congr hS (s := s) (fun _ => rfl) (settledBut_drainC s.out r hlast hbut)
 
 /-- `clear` keeps the invariant whatever is in the channel and in the graph, without hypothesis -/
 theorem C05_clear_keeps_invariant (env : Env) (hS : env.Steady) (fuel : Nat) (x : St × RSt) (hx : SInvC env fuel x) :
@@ -1741,11 +1749,12 @@ vacuously). The assets the owned load cached ON THE WAY are registered by good m
   body of the loader runs clean (`cleanRun` relative to the cache the call ends in: nested `load`s, misses
   included, recursively; no absorbed failure; no `get_cached` probe of a key that is cached before the call
   returns) — the hypothesis `CleanLoad` of a load, on the body;
-* `agrees` — `OwnedAgrees`: IF `key` is cached (dynamic cell) when the call starts, the call returns the
-  cached value. Necessary for the step (`C05_load_owned_false_disagrees`); vacuous when `key` is not cached;
 * `noFill`, `noFillLive` — `NoProbedKeyFilled`, `NoLivePendingKeyFilled` for the keys the owned load caches
   on the way; necessary (`C05_load_owned_false_fill`).
-No hypothesis on the result (value, error, panic, exhausted fuel).
+No hypothesis on the result (value, error, panic, exhausted fuel), none on whether `key` is cached: when it
+is (`load a; load_owned a`), the owned load returns the cached value and registers `a` with the same
+dependencies (`C05_load_owned_cached_agrees`) — that needs the invariant to know every cached dynamic entry
+(`Reg`, carried by `SInvC`; `Settled` alone is not inductive here: `C05_load_owned_needs_registered`).
 NOT covered: `load_owned` NESTED in a loader. That is not a gap of the proof: `hitRun` rejects `.loadOwned`,
 so an asset whose loader takes that path is never `Settled`, whatever the history
 (`C05_nested_load_owned_never_settled`, `C05_nested_load_owned_example`); `cleanRun` rejects it accordingly.
@@ -1826,25 +1835,36 @@ example :
 
 /-! ### The hypotheses on a `load_owned` are necessary; nested `load_owned` -/
 
-/-- **`OwnedAgrees` is necessary.** A state that satisfies the invariant (nothing registered, channel
-drained — `Settled` holds vacuously) in which `x` is cached with `99` although its loader returns `0`.
-`load_owned x`: a clean owned load, nothing is filled — it returns `0` and REGISTERS `x`. After
-`hot_reload()` `x` is registered, cached, and holds `99` although re-evaluating its loader returns `0`. -/
-theorem C05_load_owned_false_disagrees :
+/-- **A `load_owned` of a cached key returns the cached value** in every state of the invariant: the key
+is registered or has a registration in the channel (`Reg`), so re-evaluating its loader is a tracked
+hit-only run that returns what the entry holds (`Settled` / `LastGood`), and the owned load is that run. -/
+theorem C05_load_owned_cached_agrees (env : Env) (fuel : Nat) (x : St × RSt) (key : Key) (hx : SInvC env fuel x) :
+    OwnedAgrees env fuel x.1 key :=
+  OwnedAgrees.of_known hx.pending (fun c hc hd => hx.pending.reg key c hc hd)
+
+/-- **Why the invariant carries `Reg`** (every cached dynamic entry is registered or has a registration in
+the channel): `Settled`, a drained channel, an exact index, a live reloader are NOT enough for `load_owned`.
+A state with nothing registered (`Settled` holds vacuously) in which `x` is cached with `99` although its
+loader returns `0`: `load_owned x` is a clean owned load that fills nothing — it returns `0` and REGISTERS
+`x`. After `hot_reload()` `x` is registered, cached, and holds `99`. (Such a state is not reachable: a dynamic
+entry is created by a load that misses, which registers it.) -/
+theorem C05_load_owned_needs_registered :
     ∃ (env : Env) (fuel : Nat) (x : St × RSt) (key : Key),
-      env.Steady ∧ SInvC env fuel x ∧ CleanLoadOwned env fuel x.1 key ∧
-      NoProbedKeyFilled x.1 (step env fuel x.1 (.loadOwned key)).1 x.2.graph ∧
-      NoLivePendingKeyFilled x.1 (step env fuel x.1 (.loadOwned key)).1 ∧
-      ¬ OwnedAgrees env fuel x.1 key ∧
+      env.Steady ∧ x.1.out = [] ∧ Settled env fuel x.1 x.2.graph ∧ GraphOK x.2.graph ∧ x.2.dead = false ∧
+      LoadOwnedOK env fuel x.1 x.2 key ∧
+      ¬ Reg x.1 x.2.graph ∧ ¬ OwnedAgrees env fuel x.1 key ∧
       StaleAt env fuel (runH fuel [(env, .api (.loadOwned key)), (env, .hotReload)] x) key ∧
       ¬ Settled env fuel (runH fuel [(env, .api (.loadOwned key)), (env, .hotReload)] x).1
           (runH fuel [(env, .api (.loadOwned key)), (env, .hotReload)] x).2.graph := by
-  have hinv : SInvC cxEnv 10 ({ map := [(⟨0, "x"⟩, ⟨.int 99, true, 0, false, 0⟩)], next := 1 }, {}) :=
-    ⟨PendingC.of_settled rfl (settled_nil _ _ _), rfl, inverse_nil, fun _ => rfl⟩
   have hst : StaleAt cxEnv 10 (runH 10 [(cxEnv, .api (.loadOwned ⟨0, "x"⟩)), (cxEnv, .hotReload)]
       ({ map := [(⟨0, "x"⟩, ⟨.int 99, true, 0, false, 0⟩)], next := 1 }, {})) ⟨0, "x"⟩ := staleAt_of_check (by decide)
-  exact ⟨cxEnv, 10, _, ⟨0, "x"⟩, cxEnv_steady, hinv, ⟨by decide, by decide⟩, noProbedKeyFilled_nil _ _,
-    noLivePendingKeyFilled_of_check (by decide), fun h => absurd (ownedAgrees_check_of h) (by decide), hst, hst.not_settled⟩
+  refine ⟨cxEnv, 10, ({ map := [(⟨0, "x"⟩, ⟨.int 99, true, 0, false, 0⟩)], next := 1 }, {}), ⟨0, "x"⟩, cxEnv_steady, rfl,
+    settled_nil _ _ _, graphOK_nil, rfl, loadOwnedOK_of_check (by decide), ?_,
+    fun h => absurd (ownedAgrees_check_of h) (by decide), hst, hst.not_settled⟩
+  intro hreg
+  rcases hreg ⟨0, "x"⟩ ⟨.int 99, true, 0, false, 0⟩ (by decide) rfl with ⟨node, hg, _⟩ | ⟨D, hm⟩
+  · cases hg
+  · cases hm
 
 /-- **`NoProbedKeyFilled` is necessary for `load_owned` too** (for the keys it caches on the way): `load r`
 (it probes `x`, finds nothing, returns `1`), `hot_reload()`: everything is settled. `load_owned w`: a clean
@@ -1852,7 +1872,7 @@ owned load of a key that is not cached — whose loader loads `x`: it fills the 
 `r` returns `2` now; `r` holds `1`. -/
 theorem C05_load_owned_false_fill :
     ∃ (env : Env) (fuel : Nat) (x : St × RSt) (key : Key),
-      env.Steady ∧ SInvC env fuel x ∧ CleanLoadOwned env fuel x.1 key ∧ OwnedAgrees env fuel x.1 key ∧
+      env.Steady ∧ SInvC env fuel x ∧ CleanLoadOwned env fuel x.1 key ∧
       NoLivePendingKeyFilled x.1 (step env fuel x.1 (.loadOwned key)).1 ∧
       ¬ NoProbedKeyFilled x.1 (step env fuel x.1 (.loadOwned key)).1 x.2.graph ∧
       StaleAt env fuel (runH fuel [(env, .api (.loadOwned key)), (env, .hotReload)] x) kr ∧
@@ -1865,13 +1885,11 @@ theorem C05_load_owned_false_fill :
   have hst : StaleAt lwEnv 10 (runH 10 [(lwEnv, .api (.loadOwned ⟨0, "w"⟩)), (lwEnv, .hotReload)]
       (runH 10 [(lwEnv, .api (.load kr)), (lwEnv, .hotReload)] ({}, {}))) kr := staleAt_of_check (by decide)
   refine ⟨lwEnv, 10, runH 10 [(lwEnv, .api (.load kr)), (lwEnv, .hotReload)] ({}, {}), ⟨0, "w"⟩, lwEnv_steady, hinv,
-    ⟨by decide, by decide⟩, ownedAgrees_of_check (by decide), noLivePendingKeyFilled_of_check (by decide), ?_, hst,
-    hst.not_settled⟩
+    ⟨by decide, by decide⟩, noLivePendingKeyFilled_of_check (by decide), ?_, hst, hst.not_settled⟩
   intro hfill
   have hh : HistP (StepOKO lwEnv 10) lwEnv 10 [(lwEnv, .api (.loadOwned ⟨0, "w"⟩)), (lwEnv, .hotReload)]
       (runH 10 [(lwEnv, .api (.load kr)), (lwEnv, .hotReload)] ({}, {})) :=
-    .cons _ _ _ (StepOKO.loadOwned ⟨⟨by decide, by decide⟩, ownedAgrees_of_check (by decide), hfill,
-        noLivePendingKeyFilled_of_check (by decide)⟩)
+    .cons _ _ _ (StepOKO.loadOwned ⟨⟨by decide, by decide⟩, hfill, noLivePendingKeyFilled_of_check (by decide)⟩)
       (.cons _ _ _ (StepOK.of_idle rfl (by decide)).toC.toO (.nil _))
   exact hst.not_settled
     ((histO_settled lwEnv_steady hh hinv).2 [(lwEnv, .api (.loadOwned ⟨0, "w"⟩))] .hotReload [] rfl rfl).1
